@@ -110,6 +110,9 @@ def verify_function(w: World, relpath: str, qualname: str, contract: Contract) -
             _run(ex, w, src, contract, res)
             res.obligations = ex.obligations
             res.trusted_used = ex.trusted_used
+        if w.axioms:
+            for o in res.obligations:
+                o.pc = list(w.axioms) + list(o.pc)
     except Unsupported as e:
         ln = getattr(e.node, "lineno", None)
         res.out_of_reach = f"{e}" + (f" at {relpath}:{ln}" if ln else "")
@@ -213,7 +216,9 @@ def _run(ex: Executor, w: World, src: FunctionSource, contract: Contract, res: F
                 allowed.append(cnd)
             for ec in contract.may_raise:
                 allowed.append(ex.isinstance_term(s, exc, (ec,)))
-            ex.oblige(s, z3.Or(allowed) if allowed else z3.BoolVal(False), f"raises.allowed.x{idx}", "post", fn, "only the declared exceptions, under their conditions")
+            site = getattr(o.node, "lineno", None)
+            ety = getattr(exc.ty, "__name__", str(exc.ty))
+            ex.oblige(s, z3.Or(allowed) if allowed else z3.BoolVal(False), f"raises.allowed.x{idx}", "post", o.node if o.node is not None else fn, f"only the declared exceptions, under their conditions (here: {ety} raised at line {site})")
             for ec, spec in raises.items():
                 isa = ex.isinstance_term(s, exc, (ec,))
                 s2 = s.fork()
@@ -263,6 +268,8 @@ def _frame(ex: Executor, contract: Contract, pre: State, s: State, bind, tag, no
         if g == "$alloc" or g in ghosts_ok:
             continue
         old = pre.ghost.get(g)
-        if old is None or old.get_id() == term.get_id():
+        if old is None:
+            old = z3.Const(f"G0_{g}", term.sort())
+        if old.get_id() == term.get_id():
             continue
         ex.oblige(s, term == old, f"frame.ghost.{g}.{tag}", "frame", node, f"ghost {g} unchanged")
